@@ -111,6 +111,28 @@ pub fn c07(c: &mut Ctx) {
         }
         c.count("exponent_fields_swept");
     }
+    // thorough tier: every exponent field of a against every exponent field of b (2048 x 2048),
+    // 5 x 5 mantissa patterns, all sign combinations
+    if c.tier != 0 {
+        let pats = [0u64, 1, MANT_MASK, MANT_MASK - 1, 0x8000000000000];
+        for bea in 0..2048u64 {
+            if bea % c.nshards != c.shard {
+                continue;
+            }
+            for beb in 0..2048u64 {
+                for &ma in &pats {
+                    for &mb in &pats {
+                        for sg in 0..4u64 {
+                            let a = f64::from_bits(((sg & 1) << 63) | (bea << 52) | ma);
+                            let b = f64::from_bits(((sg >> 1) << 63) | (beb << 52) | mb);
+                            c07_pair(c, a, b);
+                        }
+                    }
+                }
+            }
+        }
+        c.extra.insert("exponent_x_exponent_grid_complete".into(), json!(true));
+    }
     // random: b within a few units of the exact half-/quarter-ulp threshold of a random a
     let n = c.budget(20_000_000, 2_000_000_000) / 2;
     for i in 0..n {
@@ -943,6 +965,41 @@ pub fn c09(c: &mut Ctx) {
         for v in [i32::MIN, i32::MAX] {
             c09_from::<i32>(c, v);
         }
+    }
+    // thorough tier: all 2^32 values of i32 and u32 (From is exact with a zero low word, try_from round-trips)
+    if c.tier != 0 {
+        let mut bad = 0u64;
+        let chunk = 1u64 << 16;
+        for hi16 in 0..(1u64 << 16) {
+            if hi16 % c.nshards != c.shard {
+                continue;
+            }
+            let r = guard(|| {
+                let mut bad: Vec<u32> = Vec::new();
+                for lo16 in 0..chunk {
+                    let v = ((hi16 << 16) | lo16) as u32;
+                    let a = <TwoFloat as From<u32>>::from(v);
+                    let b = <TwoFloat as From<i32>>::from(v as i32);
+                    let ok = a.hi() == v as f64 && a.lo() == 0.0 && b.hi() == (v as i32) as f64 && b.lo() == 0.0 && u32::try_from(a).ok() == Some(v) && i32::try_from(b).ok() == Some(v as i32) && i32::try_from(a).ok() == i32::try_from(v).ok() && u32::try_from(b).ok() == u32::try_from(v as i32).ok();
+                    if !ok && bad.len() < 4 {
+                        bad.push(v);
+                    }
+                }
+                bad
+            });
+            c.evals += 2 * chunk;
+            match r {
+                Ok(v) => {
+                    for x in v {
+                        bad += 1;
+                        c.viol("from/u32", "exhaustive32", &[x as u64, 0], &[], format!("exhaustive 32-bit sweep: From/try_from wrong for bit pattern {x:#x} (as u32 or i32)"));
+                    }
+                }
+                Err(m) => c.viol("from/u32", "panic", &[hi16 << 16, 0], &[], m),
+            }
+        }
+        let _ = bad;
+        c.extra.insert("exhaustive_32_bit_from_and_roundtrip".into(), json!(true));
     }
     let n = c.budget(8_000_000, 800_000_000) / 16;
     for i in 0..n {
